@@ -18,6 +18,7 @@ CONSTANTS
   ApiNotifies = TRUE
   GraftNeedsStream = TRUE
   ApiSkipsIfPresent = FALSE
+  DrainAfterClose = FALSE
 INVARIANT TypeOK
 INVARIANT P_C16_NoInject
 INVARIANT P_C16_Refuse
